@@ -21,10 +21,22 @@ bare ones (`Atoms(cell=...)`) - and N = 1 structures, all cell kinds, factors mo
 (for N = 0 what remains is exactly: 0 atoms, no terms, cell rows a*A, b*B, c*C, unchanged tables, input untouched) and
 tied to the model like every other case.
 
+Accessor: after every API replication the cell description the object gives of itself
+(`cell_abc_alpha_beta_gamma()`, what the CIF writer uses) must be that of the rows a*A, b*B, c*C.
+
+ASE route: a structure that enters through the public constructor `Atoms.from_ase_atoms` (ground truth: the ASE
+object - positions, symbols, cell in ANY orientation, e.g. upper-triangular) and is then replicated must be the
+supercell of THAT structure (already at 1x1x1: the same structure).  No charges exist on this route, so atoms are
+recognised by type + position instead of charge.
+
 CLI stream (the property's anchors include mofun/cli/mofun_cli.py): a generated structure (orthorhombic or
 LAMMPS-triclinic) is written to a temporary .lmpdat, the real entry point runs in-process
 (`CliRunner().invoke(mofun_cli, [inp, out, "--replicate", a, b, c] (+ ["--mic", m]))`), the output is loaded with
-`Atoms.load`, and the same oracle is applied relative to the INPUT as re-read from the same file.  With `--mic` on an
+`Atoms.load`, and the same oracle is applied relative to the INPUT as re-read from the same file.  The output is
+written as .lmpdat, as .cif (cell as lengths/angles, fractional coordinates; positions generated inside the cell so
+that nothing is wrapped; term type ids are not carried by this format and are neutralised on both sides) or through
+ASE as extended .xyz (input read by ASE as well: cells in any orientation; ground truth = the ASE object read from
+the input file).  With `--mic` on an
 orthorhombic cell the expected factors are a_i * ceil(2*mic / (a_i * len_i)) (cases where that ceil is 1 and cases
 where it is 2); on a triclinic cell `--mic` cannot replicate, `--replicate` must still be honoured.
 The other command-line inputs that reach the replication are varied too: the input format (.lmpdat / .cif) and
@@ -48,9 +60,11 @@ RULE = ("random consistent Atoms, 1..6 atoms (quick) / 1..8 (thorough), unique c
         "columns; cells orthorhombic / LAMMPS-triclinic with positive or negative tilts / arbitrarily oriented "
         "(sheared, rows permuted); factors in {1..3}^3 (thorough {1..4}^3, product <= 27), two thirds of the cases "
         "with unequal factors; a stream of the same structures with all lengths scaled by 1e-10 .. 1e6 (compared "
-        "relative to the cell size); a stream of atom-less structures with a cell (all atoms deleted, tables kept; or "
+        "relative to the cell size); structures entering through Atoms.from_ase_atoms with cells in any orientation "
+        "(ground truth: the ASE object); the cell_abc_alpha_beta_gamma accessor after each replication; CLI outputs as "
+        ".lmpdat, .cif and ASE extended xyz; a stream of atom-less structures with a cell (all atoms deleted, tables kept; or "
         "bare) and of one-atom structures. Non-trivial = distinct input with a non-orthorhombic cell, unequal factors, product "
-        ">= 2 and at least one term. CLI stream: 12 (quick) / 48 (thorough) runs of the real command line with "
+        ">= 2 and at least one term. CLI stream: 19 (quick) / 76 (thorough) runs of the real command line with "
         "--replicate alone, together with --mic, and together with --extract-uc (cell taken from another file), "
         ".lmpdat and .cif inputs, orthorhombic and LAMMPS-triclinic cells.")
 
@@ -109,30 +123,46 @@ def oracle_replicate(a, dims, r, a_after=None, a_before=None, tol=1e-9, rel=Fals
             return "cell row %d is %s, expected %d x %s" % (row, r["cell"][row], f, cell[row])
     # --- every atom of the result is (original atom, lattice offset); each pair exactly once
     by_q = {}
+    unique_q = True
     for x, at in enumerate(a["atoms"]):
         if at["q"] in by_q:
-            return None  # generator guarantees unique charges; without them the oracle does not apply
+            unique_q = False
         by_q[at["q"]] = x
     box = list(itertools.product(range(da), range(db), range(dc)))
     offs = {m: lattice(cell, *m) for m in box}
     where = []
     seen = set()
     for idx, at in enumerate(r["atoms"]):
-        x = by_q.get(at["q"])
-        if x is None:
-            return "atom %d of the result has charge %s that no original atom has" % (idx, at["q"])
-        src = a["atoms"][x]
-        if at["ty"] != src["ty"] or at["g"] != src["g"] or at["x"] != src["x"]:
-            return "atom %d (image of atom %d): type / group / extra fields differ from the original" % (idx, x)
-        d = [F(p) - F(s) for p, s in zip(at["pos"], src["pos"])]
-        ms = [m for m in box if vclose(d, offs[m], tol)]
-        if len(ms) != 1:
-            return "atom %d (image of atom %d) is displaced by %s, not by i*A+j*B+k*C with (i,j,k) inside the box" % (
-                idx, x, [str(v) for v in d])
-        if (x, ms[0]) in seen:
-            return "original atom %d appears twice at lattice offset %s" % (x, ms[0])
-        seen.add((x, ms[0]))
-        where.append((x, ms[0]))
+        if unique_q:
+            x = by_q.get(at["q"])
+            if x is None:
+                return "atom %d of the result has charge %s that no original atom has" % (idx, at["q"])
+            src = a["atoms"][x]
+            if at["ty"] != src["ty"] or at["g"] != src["g"] or at["x"] != src["x"]:
+                return "atom %d (image of atom %d): type / group / extra fields differ from the original" % (idx, x)
+            d = [F(p) - F(s) for p, s in zip(at["pos"], src["pos"])]
+            ms = [m for m in box if vclose(d, offs[m], tol)]
+            if len(ms) != 1:
+                return "atom %d (image of atom %d) is displaced by %s, not by i*A+j*B+k*C with (i,j,k) inside the box" % (
+                    idx, x, [str(v) for v in d])
+            pair = (x, ms[0])
+        else:
+            # no identifying charges (e.g. structures that came through ASE): recognise by payload + position
+            cands = []
+            for x, src in enumerate(a["atoms"]):
+                if (at["ty"], at["q"], at["g"], at["x"]) != (src["ty"], src["q"], src["g"], src["x"]):
+                    continue
+                d = [F(p) - F(s0) for p, s0 in zip(at["pos"], src["pos"])]
+                cands += [(x, m) for m in box if vclose(d, offs[m], tol)]
+            if len(cands) != 1:
+                return ("atom %d of the result (type %d at %s) is not exactly one original atom of its type displaced by "
+                        "i*A+j*B+k*C with (i,j,k) inside the box (%d candidates)" % (
+                            idx, at["ty"], [str(float(F(v))) for v in at["pos"]], len(cands)))
+            pair = cands[0]
+        if pair in seen:
+            return "original atom %d appears twice at lattice offset %s" % pair
+        seen.add(pair)
+        where.append(pair)
     if len(seen) != n * len(box):
         return "not every (atom, lattice offset) pair occurs"
     # --- terms: one copy per image, inside the image, same type and extra fields
@@ -227,6 +257,83 @@ def scale_cases(ctx):
     return out
 
 
+def oracle_cellpar(a, dims, abc, tol=1e-7):
+    """the (a, b, c, alpha, beta, gamma) the replicated object reports must describe the rows a*A, b*B, c*C"""
+    import math
+    if abc is None:
+        return None
+    rows = [[float(f * F(v)) for v in row] for f, row in zip(dims, a["cell"])]
+    ln = [math.sqrt(sum(v * v for v in row)) for row in rows]
+
+    def ang(u, v, lu, lv):
+        c = sum(x * y for x, y in zip(u, v)) / (lu * lv)
+        return math.degrees(math.acos(max(-1.0, min(1.0, c))))
+    want = ln + [ang(rows[1], rows[2], ln[1], ln[2]), ang(rows[0], rows[2], ln[0], ln[2]), ang(rows[0], rows[1], ln[0], ln[1])]
+    names = ["a", "b", "c", "alpha", "beta", "gamma"]
+    for nm, g, w in zip(names, abc, want):
+        if not (abs(g - w) <= tol * max(1.0, abs(w))):
+            return "cell_abc_alpha_beta_gamma() of the replicated structure: %s = %r, but the rows %d*A, %d*B, %d*C have %s = %r" % (
+                nm, g, dims[0], dims[1], dims[2], nm, w)
+    return None
+
+
+def ase_object(aj):
+    """the ASE Atoms object with the symbols, positions and cell of the dump (nothing else exists on that side)"""
+    import ase
+    els = [aj["types"]["elem"][at["ty"]] for at in aj["atoms"]]
+    return ase.Atoms(els, positions=[[float(F(v)) for v in at["pos"]] for at in aj["atoms"]],
+                     cell=[[float(F(v)) for v in row] for row in aj["cell"]], pbc=True)
+
+
+def dump_from_ase(obj):
+    """ground truth of the ASE route: the structure the ASE object describes, built with the plain constructor"""
+    import numpy as np
+    from mofun import Atoms
+    return core.canon_atoms(Atoms(elements=list(obj.get_chemical_symbols()), positions=np.array(obj.positions, dtype=float),
+                                  cell=np.array(obj.cell[:], dtype=float)))
+
+
+def ase_input_structure(rng, ck, n=None):
+    """a term-free structure with distinct atoms and a cell in orientation `ck` ('upper' = upper-triangular:
+    the transpose of a LAMMPS-style cell; 'rot' = sheared and row-permuted)"""
+    a = gen.rand_atoms(rng, n=n or rng.randint(1, 5), cell=("tri+" if ck == "upper" else ck), kinds=[], extras=False,
+                       coeffs=False, pair=False)
+    if ck == "upper":
+        c = a["cell"]
+        a["cell"] = [[c[j][i] for j in range(3)] for i in range(3)]
+    return a
+
+
+def _replicate_via_ase(aj, dims):
+    """Atoms.from_ase_atoms(<ASE object of aj>).replicate(dims); returns (ground-truth dump, result, side)"""
+    side = {}
+    ref = {}
+
+    def f():
+        from mofun import Atoms
+        obj = ase_object(aj)
+        ref["a"] = dump_from_ase(obj)
+        a = Atoms.from_ase_atoms(obj)
+        side["before"] = core.canon_atoms(a)
+        r = a.replicate(tuple(dims))
+        side["after"] = core.canon_atoms(a)
+        side["abc"] = [float(v) for v in r.cell_abc_alpha_beta_gamma()]
+        return core.canon_atoms(r)
+    res = core.result_of(f)
+    return ref.get("a"), res, side
+
+
+def ase_cases(ctx):
+    rng = ctx.rng
+    kinds = ["upper", "rot", "tri+", "upper", "ortho", "rot", "tri-", "upper"]
+    out = []
+    for s in range(ctx.n(24, 160)):
+        ck = kinds[s % len(kinds)]
+        dims = [1, 1, 1] if s % 6 == 5 else rand_dims(rng, 3, 12)
+        out.append((ase_input_structure(rng, ck), dims, ck))
+    return out
+
+
 def _build(aj, emptied_from=None):
     """the real object for the dump `aj`; an atom-less structure that keeps its tables cannot be constructed directly,
     it is obtained from `emptied_from` by deleting every atom (and must then dump to exactly `aj`)"""
@@ -286,11 +393,19 @@ def _replicate(aj, dims, emptied_from=None):
         side["before"] = core.canon_atoms(a)
         r = a.replicate(tuple(dims))
         side["after"] = core.canon_atoms(a)
+        side["abc"] = [float(v) for v in r.cell_abc_alpha_beta_gamma()]
         return core.canon_atoms(r)
     res = core.result_of(f)
     if res.get("err") == "error:Exception" and aj.get("cell") is None:
         res = {"err": "error:nocell"}
     return res, side
+
+
+def judge_api(a, dims, r, side, rel=False):
+    bad = oracle_replicate(a, dims, r, side.get("after"), side.get("before"), rel=rel)
+    if bad is None and "ok" in r:
+        bad = oracle_cellpar(a, dims, side.get("abc"))
+    return bad
 
 
 def rand_dims(rng, top, maxprod):
@@ -353,43 +468,82 @@ def _uc_structure(cellj):
             "xlabels": {"atom": [], **{k: [] for k in KINDS}}}
 
 
-def _cli_replicate(aj, dims, mic, fmt="lmpdat", uc=None, ucfmt="lmpdat"):
-    """write aj to a temporary input file (.lmpdat / .cif), optionally a second file holding the unit cell `uc`, run
-    the real CLI in-process; returns (reference dump, result).  Reference = the input as loaded from the file, with the
-    cell of the UC file when given, passed once through the .lmpdat writer/reader (like the output)."""
+def neutral_types(d):
+    """term type ids set to 0 (for formats that do not carry them: CIF re-reads every term with a placeholder id)"""
+    out = dict(d)
+    out["terms"] = {k: [dict(t, ty=0) for t in d["terms"][k]] for k in d["terms"]}
+    return out
+
+
+def _cli_replicate(aj, dims, mic, fmt="lmpdat", uc=None, ucfmt="lmpdat", outfmt="lmpdat"):
+    """write aj to a temporary input file (.lmpdat / .cif / ASE extended .xyz), optionally a second file holding the unit
+    cell `uc`, run the real CLI in-process with an output of format `outfmt`; returns (reference dump, result).
+    Reference = the input as loaded from the file (ASE inputs: the ASE object read from it), with the cell of the UC file
+    when given, passed once through the same writer/reader as the output (.lmpdat / .cif; nothing for xyz)."""
     import os
     import shutil
     import tempfile
     tmp = tempfile.mkdtemp(prefix="c12cli_")
     try:
-        inp, out = os.path.join(tmp, "in." + fmt), os.path.join(tmp, "out.lmpdat")
-        ucp, refp = os.path.join(tmp, "uc." + ucfmt), os.path.join(tmp, "ref.lmpdat")
+        inp, out = os.path.join(tmp, "in." + fmt), os.path.join(tmp, "out." + outfmt)
+        ucp, refp = os.path.join(tmp, "uc." + ucfmt), os.path.join(tmp, "ref." + outfmt)
         ref = {}
 
         def f():
+            import ase.io
             from click.testing import CliRunner
             from mofun import Atoms
             from mofun.cli.mofun_cli import mofun_cli
-            core.atoms_from_json(aj).save(inp)
             args = [inp, out]
-            loaded = Atoms.load(inp)
-            if uc is not None:
-                core.atoms_from_json(_uc_structure(uc)).save(ucp)
-                loaded.cell = Atoms.load(ucp).cell
-                args += ["--extract-uc", ucp]
-            loaded.save(refp)
-            ref["a"] = core.canon_atoms(Atoms.load(refp))
+            if fmt == "xyz":
+                ase.io.write(inp, ase_object(aj), format="extxyz")
+                ref["a"] = dump_from_ase(ase.io.read(inp))
+            else:
+                core.atoms_from_json(aj).save(inp)
+                loaded = Atoms.load(inp)
+                if uc is not None:
+                    core.atoms_from_json(_uc_structure(uc)).save(ucp)
+                    loaded.cell = Atoms.load(ucp).cell
+                    args += ["--extract-uc", ucp]
+                loaded.save(refp)
+                ref["a"] = core.canon_atoms(Atoms.load(refp))
+                if outfmt == "cif":
+                    ref["a"] = neutral_types(ref["a"])
             args += ["--replicate"] + [str(int(d)) for d in dims]
             if mic is not None:
                 args += ["--mic", str(float(F(mic)))]
             res = CliRunner().invoke(mofun_cli, args)
             if res.exit_code != 0:
                 raise RuntimeError("mofun CLI exit code %s: %r" % (res.exit_code, res.exception))
-            return core.canon_atoms(Atoms.load(out))
+            if outfmt == "xyz":
+                return dump_from_ase(ase.io.read(out))
+            d = core.canon_atoms(Atoms.load(out))
+            return neutral_types(d) if outfmt == "cif" else d
         r = core.result_of(f)
         return ref.get("a"), r
     finally:
         shutil.rmtree(tmp, ignore_errors=True)
+
+
+def rhombohedral_cell():
+    """a = b = c = 10, alpha = beta = gamma = 60 degrees, LAMMPS orientation"""
+    import math
+    return [[core.q(10.0), "0", "0"], [core.q(5.0), core.q(10 * math.sqrt(3) / 2), "0"],
+            [core.q(5.0), core.q(10 * math.sqrt(3) / 6), core.q(10 * math.sqrt(6) / 3)]]
+
+
+def place_inside(rng, a):
+    """positions at fractional coordinates k/16, 1 <= k <= 15 (nothing to wrap when a CIF is re-read)"""
+    cell = [[F(v) for v in row] for row in a["cell"]]
+    used = set()
+    for at in a["atoms"]:
+        while True:
+            fr = tuple(Fraction(rng.randint(1, 15), 16) for _ in range(3))
+            if fr not in used:
+                used.add(fr)
+                break
+        at["pos"] = [core.q(sum(fr[i] * cell[i][c] for i in range(3))) for c in range(3)]
+    return a
 
 
 # (input format, cell kind of the input file, cell kind of the --extract-uc file or None, format of that file, mic mode)
@@ -400,18 +554,41 @@ CLI_VARIANTS = [
     ("cif", "tri+", None, None, "plain"), ("cif", "ortho", "tri-", "lmpdat", "plain"),
     ("lmpdat", "tri+", "ortho", "lmpdat", "mic1"), ("cif", "ortho", None, None, "plain"),
     ("lmpdat", "tri-", "tri+", "cif", "plain"), ("cif", "tri-", "ortho", "cif", "plain"),
+    # output as CIF (6th entry = output format)
+    ("lmpdat", "tri+", None, None, "plain", "cif"), ("cif", "tri-", None, None, "plain", "cif"),
+    ("lmpdat", "rhomb", None, None, "plain", "cif"), ("lmpdat", "ortho", "tri+", "lmpdat", "plain", "cif"),
+    # input and output through ASE (extended xyz): cells in any orientation
+    ("xyz", "upper", None, None, "plain", "xyz"), ("xyz", "rot", None, None, "plain", "xyz"),
+    ("xyz", "ortho", None, None, "mic1", "xyz"),
 ]
 
 
 def cli_cases(ctx):
     rng = ctx.rng
     out = []
-    for s in range(ctx.n(12, 48)):
-        fmt, ck, uck, ucfmt, mode = CLI_VARIANTS[s % len(CLI_VARIANTS)]
-        a = gen.rand_atoms(rng, n=rng.randint(2, 5), cell=ck, kinds=KINDS if s % 2 == 0 else None, extras=False,
-                           coeffs=True, pair=True, term_density=rng.randint(1, 2))
+    for s in range(ctx.n(len(CLI_VARIANTS), 4 * len(CLI_VARIANTS))):
+        v = CLI_VARIANTS[s % len(CLI_VARIANTS)]
+        fmt, ck, uck, ucfmt, mode = v[:5]
+        outfmt = v[5] if len(v) > 5 else "lmpdat"
+        if fmt == "xyz":
+            a = ase_input_structure(rng, ck, n=rng.randint(2, 4))
+        else:
+            a = gen.rand_atoms(rng, n=rng.randint(2, 5), cell=("tri+" if ck == "rhomb" else ck),
+                               kinds=KINDS if s % 2 == 0 else None, extras=False,
+                               coeffs=True, pair=True, term_density=rng.randint(1, 2))
+            if ck == "rhomb":
+                a["cell"] = rhombohedral_cell()
         uc = gen.rand_cell(rng, uck)[0] if uck else None
+        if outfmt == "cif":
+            if uc is not None:          # the atoms must lie inside the cell the replication works with
+                a["cell"], keep = uc, a["cell"]
+                place_inside(rng, a)
+                a["cell"] = keep
+            else:
+                place_inside(rng, a)
         dims = rand_dims(rng, 3, 8)
+        if ck == "rhomb" and dims[0] == dims[1]:
+            dims = rng.choice([[2, 1, 1], [1, 3, 2], [1, 2, 1], [3, 1, 2]])
         if (mode != "plain" or uc is not None) and dims == [1, 1, 1]:
             dims = rng.choice([[2, 1, 1], [1, 2, 1], [1, 1, 2], [2, 1, 3]])
         mic = None
@@ -420,23 +597,24 @@ def cli_cases(ctx):
         elif mode == "mic2":    # forces a factor 2 along the shortest replicated axis (1 < 2*mic/len <= 3/2 < 2)
             lens = [dims[i] * F(a["cell"][i][i]) for i in range(3)]
             mic = core.q(Fraction(int(min(lens) * 6), 8) - Fraction(1, 8))
-        out.append({"a": a, "dims": dims, "mic": mic, "fmt": fmt, "uc": uc, "ucfmt": ucfmt or "lmpdat",
-                    "tag": "%s:%s%s:%s" % (fmt, ck, "+uc(%s,%s)" % (uck, ucfmt) if uck else "", mode)})
+        out.append({"a": a, "dims": dims, "mic": mic, "fmt": fmt, "uc": uc, "ucfmt": ucfmt or "lmpdat", "outfmt": outfmt,
+                    "tag": "%s>%s:%s%s:%s" % (fmt, outfmt, ck, "+uc(%s,%s)" % (uck, ucfmt) if uck else "", mode)})
     return out
 
 
 def check_cli(ctx, c):
     a, dims, mic = c["a"], c["dims"], c["mic"]
-    inp = {"op": "cli_replicate", "a": a, "dims": dims, "mic": mic, "fmt": c["fmt"], "uc": c["uc"], "ucfmt": c["ucfmt"]}
-    a_ref, r = _cli_replicate(a, dims, mic, c["fmt"], c["uc"], c["ucfmt"])
+    inp = {"op": "cli_replicate", "a": a, "dims": dims, "mic": mic, "fmt": c["fmt"], "uc": c["uc"], "ucfmt": c["ucfmt"],
+           "outfmt": c["outfmt"]}
+    a_ref, r = _cli_replicate(a, dims, mic, c["fmt"], c["uc"], c["ucfmt"], c["outfmt"])
     want = expected_cli_dims(a_ref, dims, mic) if a_ref is not None else list(dims)
     if a_ref is None:
         bad = "the generated structure could not be written / re-read (%s): %s" % (c["fmt"], r.get("err"))
     else:
-        bad = oracle_replicate(a_ref, want, r, tol=CLI_TOL)
+        bad = cli_oracle(a_ref, want, r, c["outfmt"])
         if bad:
-            bad = "CLI %s input%s --replicate %s%s (expected factors %s): %s" % (
-                c["fmt"], " --extract-uc <%s>" % c["ucfmt"] if c["uc"] is not None else "", dims,
+            bad = "CLI %s input, %s output%s --replicate %s%s (expected factors %s): %s" % (
+                c["fmt"], c["outfmt"], " --extract-uc <%s>" % c["ucfmt"] if c["uc"] is not None else "", dims,
                 "" if mic is None else " --mic %s" % mic, want, bad)
     ctx.case(inp, nontrivial=((mic is not None or c["uc"] is not None) and dims != [1, 1, 1]))
     ctx.count("cli:" + c["tag"])
@@ -447,7 +625,14 @@ def check_cli(ctx, c):
     return a_ref, want, r
 
 
-CLI_TOL = 2e-6   # both sides went through "%10.6f" once
+CLI_TOL = 2e-6   # both sides went through "%10.6f" (lmpdat) / "%16.8f" (extended xyz) once
+CIF_TOL = 5e-4   # relative to the cell size: fractional coordinates and angles are written with 4 decimals
+
+
+def cli_oracle(a_ref, want, r, outfmt):
+    if outfmt == "cif":
+        return oracle_replicate(a_ref, want, r, tol=CIF_TOL, rel=True)
+    return oracle_replicate(a_ref, want, r, tol=CLI_TOL)
 
 
 def _norm(aj):
@@ -462,7 +647,7 @@ def run(ctx, oracle_only=False):
         a = _norm(a)
         inp = {"op": "replicate", "a": a, "dims": dims}
         r, side = _replicate(a, dims)
-        bad = oracle_replicate(a, dims, r, side.get("after"), side.get("before"))
+        bad = judge_api(a, dims, r, side)
         nterms = sum(len(a["terms"][k]) for k in KINDS)
         ctx.case(inp, nontrivial=(ck != "ortho" and len(set(dims)) > 1 and dims[0] * dims[1] * dims[2] >= 2 and nterms > 0))
         ctx.count("cell:" + ck)
@@ -482,7 +667,7 @@ def run(ctx, oracle_only=False):
         if full is not None:
             inp["emptied_from"] = full
         r, side = _replicate(a, dims, full)
-        bad = oracle_replicate(a, dims, r, side.get("after"), side.get("before"))
+        bad = judge_api(a, dims, r, side)
         ctx.case(inp, nontrivial=(dims != [1, 1, 1] and ck != "ortho"))
         ctx.count("small:" + tag)
         ctx.count("cell:" + ck)
@@ -490,12 +675,27 @@ def run(ctx, oracle_only=False):
             ctx.fail("%s structure: %s" % (tag, bad), inp, observed=r)
         ops.append(inp)
         impls.append(r)
+    # structures that enter through Atoms.from_ase_atoms (ground truth: the ASE object)
+    for a, dims, ck in ase_cases(ctx):
+        inp = {"op": "replicate_via_ase", "a": a, "dims": dims}
+        a_ref, r, side = _replicate_via_ase(a, dims)
+        if a_ref is None:
+            bad = "the ASE object could not be built: %s" % r.get("err")
+        else:
+            bad = judge_api(a_ref, dims, r, side)
+        ctx.case(inp, nontrivial=(ck in ("upper", "rot") and dims != [1, 1, 1]))
+        ctx.count("ase:" + ck)
+        if bad:
+            ctx.fail("via Atoms.from_ase_atoms (%s cell): %s" % (ck, bad), inp, observed=r)
+        if a_ref is not None:
+            ops.append({"op": "replicate", "a": a_ref, "dims": dims})
+            impls.append(r)
     # the same in other units of length: everything relative to the cell size
     for a, dims, ck, sc in scale_cases(ctx):
         a = _norm(a)
         inp = {"op": "replicate", "a": a, "dims": dims, "scale": sc}
         r, side = _replicate(a, dims)
-        bad = oracle_replicate(a, dims, r, side.get("after"), side.get("before"), rel=True)
+        bad = judge_api(a, dims, r, side, rel=True)
         ctx.case(inp, nontrivial=(dims[0] * dims[1] * dims[2] >= 2))
         ctx.count("scale:" + sc)
         ctx.count("cell:" + ck)
@@ -510,7 +710,7 @@ def run(ctx, oracle_only=False):
         if a_ref is not None and "ok" in r:
             # tie: the model replicates the reference structure by the expected factors (compared order-independently,
             # with the tolerance of the text layer)
-            ops.append({"op": "replicate", "a": a_ref, "dims": want, "via": "cli"})
+            ops.append({"op": "replicate", "a": a_ref, "dims": want, "via": "cli:" + c["outfmt"]})
             impls.append(r)
     if oracle_only:
         return
@@ -530,9 +730,14 @@ def run(ctx, oracle_only=False):
             ref = rescaled(inp["a"], f)
             ctx.compare("replicate", inp, {"ok": canon_by_image(rescaled(r["ok"], f), ref, inp["dims"])},
                         {"ok": canon_by_image(rescaled(m["ok"], f), ref, inp["dims"])})
+        elif "ok" in r and "ok" in m and inp.get("via") == "cli:cif":
+            f = 1 / cell_scale(inp["a"])
+            ref = rescaled(inp["a"], f)
+            ctx.compare("replicate", inp, {"ok": canon_by_image(rescaled(r["ok"], f), ref, inp["dims"], CIF_TOL)},
+                        {"ok": canon_by_image(rescaled(m["ok"], f), ref, inp["dims"], CIF_TOL)}, numeric_tol=CIF_TOL)
         elif "ok" in r and "ok" in m:
             ctx.compare("replicate", inp, {"ok": canon_sorted(r["ok"])}, {"ok": canon_sorted(m["ok"])},
-                        numeric_tol=CLI_TOL if inp.get("via") == "cli" else 1e-9)
+                        numeric_tol=CLI_TOL if str(inp.get("via", "")).startswith("cli") else 1e-9)
         else:
             ctx.compare("replicate", inp, r, m)
 
@@ -550,10 +755,13 @@ def replay(ctx, rec):
     inp = rec["input"]
     if inp.get("op") == "cli_replicate":
         a_ref, r = _cli_replicate(inp["a"], inp["dims"], inp.get("mic"), inp.get("fmt", "lmpdat"), inp.get("uc"),
-                                  inp.get("ucfmt", "lmpdat"))
+                                  inp.get("ucfmt", "lmpdat"), inp.get("outfmt", "lmpdat"))
         if a_ref is None:
             return False
-        return oracle_replicate(a_ref, expected_cli_dims(a_ref, inp["dims"], inp.get("mic")), r, tol=CLI_TOL) is None
+        return cli_oracle(a_ref, expected_cli_dims(a_ref, inp["dims"], inp.get("mic")), r,
+                          inp.get("outfmt", "lmpdat")) is None
+    if inp.get("op") == "replicate_via_ase":
+        a_ref, r, side = _replicate_via_ase(inp["a"], inp["dims"])
+        return a_ref is not None and judge_api(a_ref, inp["dims"], r, side) is None
     r, side = _replicate(inp["a"], inp["dims"], inp.get("emptied_from"))
-    return oracle_replicate(inp["a"], inp["dims"], r, side.get("after"), side.get("before"),
-                            rel=bool(inp.get("scale"))) is None
+    return judge_api(inp["a"], inp["dims"], r, side, rel=bool(inp.get("scale"))) is None
